@@ -790,7 +790,21 @@ def eval (cfg : ECfg) (al : List (Str × Val)) : Nat → Node → RM Unit
           | .str s => do
             let r ← liftX (fun env => callTranslate cfg env s none none)
             pure (Val.str r)
-          | _ => mUnsupported "tal:content with i18n:translate=\"\" of a value that is not text"
+          | .dflt | .markup _ => mUnsupported "tal:content with i18n:translate=\"\" of the default marker / markup"
+          | .obj id =>
+            -- the value itself is the message id (the recorder logs its string form); the simple translation function
+            -- gives the value back, which is then inserted like any other value (and, not being text, offered again)
+            match cfg.tab[id]? with
+            | some o =>
+              if o.translation.isSome then mUnsupported "tal:content with i18n:translate=\"\" of an object with a translation of its own"
+              else do
+                liftX (fun env x => .ok () { x with tlog := x.tlog.push (offerOf env.topFrame o.strForm) })
+                pure v0
+            | none => mUnsupported "unknown object"
+          | _ => do
+            let s ← mLiftR (Val.strOf cfg.tab v0)
+            liftX (fun env x => .ok () { x with tlog := x.tlog.push (offerOf env.topFrame s) })
+            pure v0
         else pure v0)
       liftX (fun env => offerCall cfg env v)
       let q ← mLiftR (toQIn cfg v)
